@@ -120,11 +120,14 @@ impl<'a> Ck<'a> {
 fn other_protected(current: &ProtectedHeader) -> Vec<ProtectedHeader> {
     // "different" is decided on the header *content* (different contents have different encodings),
     // never on the subject's own encoding of it
-    let cur = format!("{:?}", current.header);
+    // (retained bytes of nested counter signatures are not content: a decoded header and the built
+    // header it came from are the same header)
+    let content = |h: &coset::Header| crate::spaces::c11::strip_original(&format!("{:?}", h));
+    let cur = content(&current.header);
     msgbuild::headers()
         .iter()
         .map(|h| ProtectedHeader { original_data: None, header: subject::c_header(h).unwrap() })
-        .filter(|p| format!("{:?}", p.header) != cur)
+        .filter(|p| content(&p.header) != cur)
         .collect()
 }
 
